@@ -520,6 +520,39 @@ def config_tag_list(fv):
 # ---------------------------------------------------------------------------
 # rendering: files and command line
 # ---------------------------------------------------------------------------
+EARLIER_INI = u"""[behave]
+name = Earlier
+    Other
+paths = earlier_features
+tags = @earlier
+tag_expression_protocol = v1
+scenario_outline_annotation_schema = {name} [{row.index}]
+show_timings = false
+show_skipped = false
+summary = false
+stage = earlier
+junit = true
+junit_directory = earlier_reports
+default_format = progress
+logging_level = ERROR
+stdout_capture = false
+
+[behave.userdata]
+browser = earlier-browser
+earlier.key = 1
+"""
+EARLIER_TOML = u"""[tool.behave]
+name = ["Earlier"]
+tag_expression_protocol = "v1"
+scenario_outline_annotation_schema = "{name} [{row.index}]"
+show_timings = false
+stage = "earlier"
+
+[tool.behave.userdata]
+browser = "earlier-browser"
+"""
+
+
 def render_ini(f):
     style = f.get("st", 0)
     eq = "=" if style & 1 else " = "
@@ -842,6 +875,28 @@ def run_case(case):
         for name in ("BEHAVE_STAGE", "BEHAVE_COLOR", "APPDATA"):
             os.environ.pop(name, None)
         os.chdir(cwd)
+        if case.get("earlier"):
+            # history within one process (behave driven as a library, main() called twice): an EARLIER Configuration was
+            # built from other editions of the same files; nothing of it may be left in the one under test
+            paths = [os.path.join(obs.dirs[f["where"]], f["name"]) for f in case["files"]] or [os.path.join(cwd, "behave.ini")]
+            kept = {}
+            for path in paths:
+                if os.path.exists(path):
+                    with open(path, encoding="utf-8") as fh:
+                        kept[path] = fh.read()
+                with open(path, "w", encoding="utf-8") as fh:
+                    fh.write(EARLIER_TOML if path.endswith(".toml") else EARLIER_INI)
+            try:
+                with contextlib.redirect_stdout(io.StringIO()), contextlib.redirect_stderr(io.StringIO()):
+                    Configuration(["--define", "earlier=1", "--name", "EarlierName"])
+            except (Exception, SystemExit):     # noqa: whatever happens there is not the subject
+                pass
+            for path in paths:
+                if path in kept:
+                    with open(path, "w", encoding="utf-8") as fh:
+                        fh.write(kept[path])
+                else:
+                    os.unlink(path)
         argv = render_argv(case)
         obs.argv = argv
         obs.direct = []
@@ -1167,6 +1222,8 @@ def _labels(res, case, exp, fv, cv):
     res.label("layout:" + case["layout"], "files:%d" % len(case["files"]))
     for f in case["files"]:
         res.label("file:" + f["name"], "where:" + f["where"])
+        if case.get("earlier"):
+            res.label("history:earlier-configuration-from-other-editions-of-the-files")
         if f.get("noise") == 2 and (f["opts"] or f["ud"]):
             res.label("file:behave-section-after-kilobytes-of-other-sections")
         if f["ud"]:
@@ -1419,6 +1476,8 @@ def case_st(draw, toml_ok=True, focus="options"):
                 opt["v"] = draw(st.sampled_from(UNRESOLVABLE_FORMAT))
                 opt.pop("interp", None)
     case = {"kind": "cfg", "layout": layout, "files": files, "cli": cli}
+    if draw(st.integers(0, 3)) == 0:
+        case["earlier"] = True
     if gets:
         case["gets"] = gets
         if draw(st.integers(0, 2)) == 0:
@@ -1520,7 +1579,7 @@ def explore(rec):
 
 
 def required_labels(tier):
-    labels = ["getter:read-update-read", "getter:via-namespace", "file:behave-section-after-kilobytes-of-other-sections", "both-different", "layout:sep", "layout:nested", "layout:same", "files:0", "files:1", "files:2",
+    labels = ["history:earlier-configuration-from-other-editions-of-the-files", "getter:read-update-read", "getter:via-namespace", "file:behave-section-after-kilobytes-of-other-sections", "both-different", "layout:sep", "layout:nested", "layout:same", "files:0", "files:1", "files:2",
               "file:behave.ini", "file:.behaverc", "file:setup.cfg", "file:tox.ini", "where:cwd", "where:home",
               "bool-both", "append-both", "home-relative-path", "outfile-filled", "tags-replace", "placeholder",
               "paths-replace", "coupling:wip", "coupling:quiet", "coupling:junit", "coupling:steps_catalog",
